@@ -73,6 +73,13 @@ def run(ctx):
         for mode in ("NEW", "OVERWRITE", "NOTHING"):
             cases.append({"op": "files", "src_hex": vh.hexs(src), "files": [["f.txt", vh.hexs(content)], ["bystander.dat", vh.hexs("do not touch")]], "search": ["f.txt"], "mode": mode})
             meta.append((src, "replace", mode, [["f.txt", content]], False))
+    # a file is its BYTES: a byte order mark, characters of several bytes and stray bytes are content like any other, read, matched, copied and written back as they are
+    for src, content in (("replace all 'a' with 'bb'", BOM + "a.a"), ("replace all 'zz' with 'q'", BOM + "hello"), ("replace all any with 'x'", BOM + "ab"), ("replace all 'b' with ''", "ab" + BOM + "b" + BOM),
+                         ("replace all '%s' with 'e'" % E2, "caf" + E2 + " " + E2 + E2), ("replace all 'a' with '%s'" % E3, E2 + "a" + E4 + "a\xff"), ("replace all file start any with 'S'", BOM + "abc"),
+                         ("replace all 'a' with 'A'", "\xff\xfea\x00b\x00a\x00"), ("replace top 1 'b' with 'B'", BOM)):
+        for mode in ("NEW", "OVERWRITE", "NOTHING"):
+            cases.append({"op": "files", "src_hex": vh.hexs(src), "files": [["f.txt", vh.hexs(content)], ["bystander.dat", vh.hexs("do not touch")]], "search": ["f.txt"], "mode": mode})
+            meta.append((src, "replace", mode, [["f.txt", content]], False))
     res = vh.run_cases(cases, shards=8)
     # model: what each replace command writes
     lines = []
